@@ -174,13 +174,15 @@ class CGen:
                 if sparse:
                     labels = sorted({ch.draw(128, "caseval")
                                      for _ in range(2 + ch.draw(6, "nsparse"))})
-                for c in labels:
-                    out.append(f"{pad}case {c}:")
+                # the default label may stand anywhere among the cases
+                dpos = ch.draw(len(labels) + 1, "defaultpos") \
+                    if ch.chance(1, 2, "defaultanywhere") else len(labels)
+                arms = [f"case {c}:" for c in labels]
+                arms.insert(dpos, "default:")
+                for arm in arms:
+                    out.append(f"{pad}{arm}")
                     out += self.block(vars_, 0, indent + 1)
                     out.append(f"{pad}  break;")
-                out.append(f"{pad}default:")
-                out += self.block(vars_, 0, indent + 1)
-                out.append(f"{pad}  break;")
                 out.append(f"{pad}}}")
             else:
                 if self.arrays:
@@ -467,8 +469,16 @@ def gen_pascal(ch, tag="p"):
     for i in range(ch.draw(3, "pasnfun")):
         name = f"fn{i}"
         out.append(f"function {name}(a: integer; b: integer): integer;")
+        nloc = ch.draw(5, "pasnloc")
+        locs = [f"l{j}" for j in range(nloc)]
+        if locs:
+            out.append("var " + ", ".join(locs) + ": integer;")
         out.append("begin")
-        out.append(f"  {name} := {expr(['a', 'b'], 2)};")
+        names = ["a", "b"]
+        for l in locs:
+            out.append(f"  {l} := {expr(names, 2)};")
+            names.append(l)
+        out.append(f"  {name} := {expr(names, 2)};")
         out.append("end;")
         funcs.append(name)
     out.append("begin")
